@@ -15,6 +15,7 @@ import (
 	"math/rand"
 	"os"
 	"runtime"
+	"sort"
 	"strconv"
 	"sync"
 )
@@ -276,4 +277,16 @@ func Run(entry func()) (failures []string, skippedRun bool, panicVal any) {
 	mu.Lock()
 	defer mu.Unlock()
 	return append([]string(nil), Failures...), skippedRun, panicVal
+}
+
+// ReachedLabels returns the reach labels hit so far, sorted.
+func ReachedLabels() []string {
+	mu.Lock()
+	defer mu.Unlock()
+	var r []string
+	for k := range Reached {
+		r = append(r, k)
+	}
+	sort.Strings(r)
+	return r
 }
